@@ -30,6 +30,9 @@ checks={
  "C17":dict(engine="E1+E3",cat="model_checking",tech=MC+"; exhaustive products for retention and the read window",
    text="nine closed scenarios (1-2 logging goroutines x 1-5 calls at all levels, the rotation cycle, a clock thread carrying virtual time across midnight, rotation on/off, interval 0/10 s) on an in-memory file system whose operations are scheduling points: every schedule within preemption bound 2 (3) is run on the real logger and the files are read back (every gated line exactly once, whole, per-thread order, names, new-day placement); retention over every 1- and 2-file directory, the full 12-name directory and its one-less variants x 3 clocks x 3 keep-days x rotation; read window over 4 sizes x 6 end positions x 7 lengths x 7 names incl. traversal and absolute paths",
    note="in-memory file system model; the 10 s loop is replaced by a cycle thread calling the same function through a verif hook",ref="DESIGN.md 4 C17"),
+ "C18":dict(engine="E2+E4",cat="model_checking",tech=ES+"; crash-image enumeration over the write-back's file-operation log",
+   text="every history up to length 3 (4) of external edits (5 contents x modification times +1 ms/+0.5 s/+1 s/+4 s), clock advances and reload ticks on a real scratch file with a virtual clock, followed by two quiet polls: every key=value of the file visible, observer notified and up to date; 16 values x 7 typed getters against parse-or-default; write-back over 6 files x 12 value maps x 4 option sets (other keys, written values, comments, order); every prefix of the write-back's operation log with the write torn at 0/1/line ends/len-1/len must leave the old or the new complete content",
+   note="the concurrent-getter clause concerns an unsynchronised Go map (no scheduling points) and is not decided; known findings: non-atomic write-back, double backslash, leading space",ref="DESIGN.md 4 C18"),
  "C19":dict(engine="E3",cat="exploration",tech=E3T,
    text="every day of 2000-2099 x 16 boundary instants (thorough: every second of the century): all calendar helpers equal time.Time in UTC and the unit functions equal floor((t-base)/step); every pattern up to length 4 (5) over the seven field letters and five literals x 40 instants x 6 clock answers: Parse(FormatTime(t)) agrees with t on every field present in the pattern",
    note="fields absent from a pattern come from the clock and are not compared; clock is an enumerated environment answer through the vtime seam",ref="DESIGN.md 4 C19"),
